@@ -12,10 +12,16 @@ NAMES = {1: "n1", 2: "n2", 3: "n3"}  # n3 is not registered
 
 
 class _WeakArg:
+    """A weakly referenced argument.  Odd ids are FALSY objects (like an empty list walker or an empty container):
+    alive is not the same as true."""
+
     __slots__ = ("w", "__weakref__")
 
     def __init__(self, w):
         self.w = w
+
+    def __bool__(self):
+        return self.w % 2 == 0
 
 
 class World:
@@ -31,8 +37,14 @@ class World:
         class SenderA(metaclass=MetaSignals):
             signals = ["n1", "n2"]
 
-        class SenderB(metaclass=MetaSignals):
-            signals = ["n1", "n2"]
+        class _Base(metaclass=MetaSignals):      # signal names registered through a class hierarchy three deep
+            signals = ["n1"]
+
+        class _Mid(_Base):
+            signals = ["n2"]
+
+        class SenderB(_Mid):
+            pass
 
         self.senders = {1: SenderA(), 2: SenderB()}
         self.weak = {w: _WeakArg(w) for w in range(1, nweak + 1)}
@@ -61,13 +73,24 @@ class World:
         return handler
 
     # ---- abstract operations ---------------------------------------------------------------
-    def connect(self, s, n, h, w, u=None):
+    def connect(self, s, n, h, w, u=None, victim=0):
         k = self.nextk
         u = k if u is None else u
         exc = ""
         if w and w not in self.weak:
             return 0
         wa = [self.weak[w]] if w else []
+        if victim and victim in self.weak and victim != w and not self.inuse.get(victim):
+            # another weak argument dies WHILE connect() is running: the iterable of weak arguments drops its last reference
+            world, inner = self, list(wa)
+
+            class _Dying:
+                def __iter__(self_):      # noqa: N805
+                    world.collect(victim)
+                    items = inner[:]
+                    del inner[:]          # keep no reference behind (this class object lives until the cyclic collector runs)
+                    return iter(items)
+            wa = _Dying()
         try:
             self.keys[k] = self.urwid.connect_signal(self.senders[s], NAMES[n], self.handlers[h], weak_args=wa, user_args=[u])
             self.shadow[(s, n)].append((k, h, w))
@@ -78,6 +101,9 @@ class World:
             exc = type(ex).__name__
         self.ev.append({"t": "connect", "s": s, "n": n, "h": h, "w": w, "k": k, "u": u, "exc": exc})
         return k
+
+    def connect_kill(self, s, n, h, w, victim):
+        return self.connect(s, n, h, w, None, victim)
 
     def connect_dup(self, k0):
         """Connect once more exactly what connection k0 connected: same sender, name, callback, weak and user arguments."""
@@ -265,6 +291,12 @@ def directed_scripts():
                     script = [("connect", 1, 1, 1, ws[0]), ("connect", 1, 1, 2, ws[1]), ("connect", 1, 1, 3, ws[2]), ("connect", 1, 2, 4, 0),
                               ("emit", 1, 1), ("emit", 1, 1)]
                     out.append(([b1, b2, b3, "plain"], 4, script))
+    # a handler is connected while the weak argument of an already connected handler dies (inside connect())
+    for b in ("plain", "true", "discSelf"):
+        for pos in (0, 1, 2):
+            pre = [("connect", 1, 1, 1, 2), ("connect", 1, 1, 2, 0), ("connect", 1, 1, 3, 2)][:pos + 1]
+            script = pre + [("connect_kill", 1, 1, 4, 0, 2), ("emit", 1, 1), ("connect_kill", 1, 1, 4, 1, 2), ("emit", 1, 1), ("emit", 1, 2)]
+            out.append(([b, "plain", "plain", "true"], 4, script))
     for b in BEHS:
         for ndup in (1, 2):
             for ndisc in (0, 1, 2, 3):
@@ -292,6 +324,13 @@ def random_script(rng, nh, nweak, length):
             k += 1
         elif r < 0.45:
             script.append(("connect", s, 3, rng.randint(1, nh), 0))
+        elif r < 0.47 and nweak >= 2:   # connect while another handler's weak argument is dying
+            h = rng.randint(1, nh)
+            w = rng.choice([0] + list(range(1, nweak + 1)))
+            v = rng.choice([x for x in range(1, nweak + 1) if x != w])
+            script.append(("connect_kill", s, n, h, w, v))
+            known.append((s, n, h, w, k))
+            k += 1
         elif r < 0.5 and known:      # the same callback with the same arguments once more
             e = rng.choice(known)
             script.append(("connect_dup", e[4]))
@@ -403,7 +442,7 @@ def run(chk):
     # ---- code -> spec: directed families (behaviour triples, duplicate connections) ----------------
     nd = 0
     for beh, nh, script in directed_scripts():
-        tr = run_script(beh, nh, script, nweak=1, maxconn=6)
+        tr = run_script(beh, nh, script, nweak=2, maxconn=6)
         tr["driver"] = "directed"
         traces.append(tr)
         nd += 1
